@@ -10,6 +10,7 @@ from .state import (SV, State, const_sv, truthy, shape, field_type, KIND, CLS, c
                     GHOSTS, CLASS_DECL)
 from .execcore import Outcome, Exc, ExecCore, SeqHolder
 from .state import merge_states
+from . import spec as SP
 
 GLOBAL_OBJECTS = {}     # 'mod:NAME' -> static type of a module-level mutable object (lives in the pre-state heap)
 ORDER_KEYS = {}         # class qual -> ghost name giving the integer that orders instances (E-CLOCK)
@@ -144,6 +145,8 @@ class ExecExpr(ExecCore):
     def ex_Constant(self, n, st):
         if isinstance(n.value, front.CONST_TYPES):
             return [(st, const_sv(n.value))], []
+        if isinstance(n.value, float):
+            return [(st, new_instance(st, 'builtins:float'))], []     # floats are opaque values
         raise Unsupported('constant %r' % (n.value,))
 
     def ex_Name(self, n, st):
@@ -204,6 +207,12 @@ class ExecExpr(ExecCore):
             if ft is not None:
                 term = st.field(attr)[va(base.term)]
                 st.assume(shape(st, term, ft))
+                if isinstance(ft, Ty.TFunc) and ft.recv_field:
+                    # a bound method stored in a field; its receiver is another field of the same object
+                    rt = field_type(ty.cls, ft.recv_field)
+                    rterm = st.field(ft.recv_field)[va(base.term)]
+                    st.assume(shape(st, rterm, rt))
+                    return [(st, SV(term, Ty.TFunc(ft.qual, recv=SV(rterm, rt))))], []
                 return [(st, SV(term, ft))], []
             owner, member = front.method_owner(ty.cls, attr)
             if owner is not None:
@@ -220,12 +229,41 @@ class ExecExpr(ExecCore):
                 raise Unsupported('class member %s.%s of type %s' % (ty.cls, attr, type(member).__name__))
             if self.class_assigns_field(ty.cls, attr):
                 raise Unsupported('field %s of %s is assigned in the class but not declared in the sidecar' % (attr, ty.cls))
+            # the static class is an upper bound: a registered subclass may declare the member
+            subs = self.subclasses_with_field(ty.cls, attr)
+            if subs:
+                cid = CLS(va(base.term))
+                has, no = self.fork(st, Or(*[cid == front.cls_id(q) for q in subs]), None)
+                normals, raises = [], []
+                if no is not None:
+                    raises.append(self.raised(no, 'builtins:AttributeError'))
+                if has is not None:
+                    fts = set(repr(field_type(q, attr)) for q in subs)
+                    if len(fts) != 1:
+                        raise Unsupported('member %s has different types in subclasses of %s' % (attr, ty.cls))
+                    ft = field_type(subs[0], attr)
+                    term = has.field(attr)[va(base.term)]
+                    has.assume(shape(has, term, ft))
+                    normals.append((has, SV(term, ft)))
+                return normals, raises
             return [], [self.raised(st, 'builtins:AttributeError')]
         if isinstance(ty, Ty.TAny):
             raise Unsupported('attribute .%s of a value with unknown static type (line %d)' % (attr, self.cur_line))
         raise Unsupported('attribute .%s of %r' % (attr, ty))
 
     _assigned_cache = {}
+    _subfield_cache = {}
+
+    def subclasses_with_field(self, clsq, attr):
+        key = (clsq, attr)
+        if key not in self._subfield_cache:
+            out = []
+            for i in front.subclass_ids(clsq):
+                q = front.id_cls(i)
+                if q != clsq and field_type(q, attr) is not None:
+                    out.append(q)
+            self._subfield_cache[key] = out
+        return self._subfield_cache[key]
 
     def class_assigns_field(self, clsq, attr):
         key = clsq
@@ -294,6 +332,117 @@ class ExecExpr(ExecCore):
             if all(k.has_py for k, _ in items):
                 c.notes[('keys', str(d.term))] = [k.py for k, _ in items]
             out.append((c, d))
+        return out, raises
+
+    def ex_ListComp(self, n, st):
+        """map-only comprehension [e(x) for x in xs]: the result is a fresh list R with len(R) == len(xs) and the
+        contract's element relation elem(src_i, res_i) for every i; the relation is an obligation on the body
+        evaluated for an arbitrary index (map rule).  Calls in the body must not modify the modelled heap."""
+        if len(n.generators) != 1 or n.generators[0].ifs or n.generators[0].is_async:
+            raise Unsupported('comprehension with filters / several generators (line %d)' % n.lineno)
+        gen = n.generators[0]
+        k = self.comp_ordinals.setdefault(id(n), len(self.comp_ordinals))
+        cspec = (getattr(self.contract, 'comps', None) or {}).get(k)
+        normals, raises = self.ev(gen.iter, st)
+        out = []
+        for c, itv in normals:
+            view = self.iter_view(c, itv)
+            if view[0] == 'const' or SP.BOUND[0] is not None:
+                if view[0] == 'const':
+                    items = view[1]
+                    cur = [(c, [])]
+                else:
+                    K = SP.BOUND[0]
+                    _, seq, elty, axioms = view
+                    for ax in axioms:
+                        c.assume(ax)
+                    c.assume(z3.Length(seq) <= K)
+                    cur = None
+                    # enumerate lengths 0..K
+                    acc = []
+                    for ln in range(K + 1):
+                        cl = c.copy().assume(z3.Length(seq) == ln, 'f')
+                        if not self.feasible(cl):
+                            continue
+                        its = []
+                        for i in range(ln):
+                            it = SV(seq[i], elty)
+                            cl.assume(shape(cl, it.term, elty))
+                            its.append(it)
+                        acc.append((cl, its))
+                    for cl, its in acc:
+                        cur2 = [(cl, [])]
+                        for it in its:
+                            nxt = []
+                            for c2, vals in cur2:
+                                ns, rs = self.assign(gen.target, it, c2)
+                                raises.extend(rs)
+                                for c3 in ns:
+                                    vn, vr = self.ev(n.elt, c3)
+                                    raises.extend(vr)
+                                    nxt.extend((c4, vals + [v]) for c4, v in vn)
+                            cur2 = nxt
+                        out.extend((c2, new_list(c2, vals)) for c2, vals in cur2)
+                    continue
+                for it in items:
+                    nxt = []
+                    for c2, vals in cur:
+                        ns, rs = self.assign(gen.target, it, c2)
+                        raises.extend(rs)
+                        for c3 in ns:
+                            vn, vr = self.ev(n.elt, c3)
+                            raises.extend(vr)
+                            nxt.extend((c4, vals + [v]) for c4, v in vn)
+                    cur = nxt
+                out.extend((c2, new_list(c2, vals)) for c2, vals in cur)
+                continue
+            if cspec is None:
+                raise Unsupported('comprehension #%d over a symbolic sequence has no element relation in the contract' % k)
+            _, seq, elty, axioms = view
+            for ax in axioms:
+                c.assume(ax)
+            rty = Ty.parse_type(cspec.get('type', 'Any'))
+            # body for an arbitrary index
+            b = c.copy()
+            iv = fresh('ci', IntS)
+            b.assume(And(0 <= iv, iv < z3.Length(seq)), 'f')
+            if self.feasible(b):
+                it = SV(seq[iv], elty)
+                b.assume(shape(b, it.term, elty))
+                ns, rs = self.assign(gen.target, it, b)
+                raises.extend(rs)
+                for b1 in ns:
+                    heap_before = (dict(b1.heap), b1.L, b1.DK, b1.DV)
+                    vn, vr = self.ev(n.elt, b1)
+                    raises.extend(vr)
+                    for b2, v in vn:
+                        if not (b2.L.eq(heap_before[1]) and b2.DK.eq(heap_before[2]) and
+                                all(b2.heap.get(f) is None or b2.heap[f].eq(a) for f, a in heap_before[0].items())):
+                            if not all(f in heap_before[0] and b2.heap[f].eq(heap_before[0][f]) for f in b2.heap
+                                       if f in heap_before[0]):
+                                raise Unsupported('comprehension body modifies the heap (line %d)' % n.lineno)
+                        ev = SP.SpecEval(b2, dict(b2.env, src_i=it, res_i=v), self.modname, old=self.old_state,
+                                         extra=self.let_values)
+                        for lab, text in self.contract.labelled(cspec.get('elem', [])):
+                            self.oblige(b2, ev.bool(text), 'comp-elem[%s]@comp#%d' % (lab, k), 'inv-keep')
+                        self.oblige(b2, shape(b2, v.term, rty), 'comp-elem[type]@comp#%d' % k, 'inv-keep')
+            # result
+            R = fresh('comp', SeqVal)
+            res = new_list_from_seq(c, R, rty)
+            c.assume(z3.Length(R) == z3.Length(seq))
+            qi = fresh('q_ci', IntS)
+            body = []
+            sv_src, sv_res = SV(seq[qi], elty), SV(R[qi], rty)
+            ev = SP.SpecEval(c, dict(c.env, src_i=sv_src, res_i=sv_res), self.modname, old=self.old_state,
+                             extra=self.let_values)
+            for lab, text in self.contract.labelled(cspec.get('elem', [])):
+                body.append(ev.bool(text))
+            body.append(shape(c, R[qi], rty))
+            c.assume(z3.ForAll([qi], Implies(And(0 <= qi, qi < z3.Length(R)), And(*body))))
+            nn = fresh('next', IntS)
+            c.assume(nn >= c.nxt)
+            c.nxt = nn
+            out.append((c, res))
         return out, raises
 
     # ------------------------------------------------------------------ operators
@@ -471,6 +620,8 @@ class ExecExpr(ExecCore):
             x, y = int_of(a), int_of(b)
             r = {ast.Lt: x < y, ast.LtE: x <= y, ast.Gt: x > y, ast.GtE: x >= y}[type(op)]
             return [(st, B(r))], []
+        if isinstance(a.ty, Ty.TInst) and isinstance(b.ty, Ty.TInst) and a.ty.cls == b.ty.cls == 'builtins:float':
+            return [(st, B(fresh('fcmp', BoolS)))], []      # float ordering is not modelled: any outcome
         if isinstance(a.ty, Ty.TInst) and isinstance(b.ty, Ty.TInst) and a.ty.cls == b.ty.cls and a.ty.cls in ORDER_KEYS:
             key = GHOSTS[ORDER_KEYS[a.ty.cls]][0]
             x, y = key(a.term), key(b.term)
